@@ -143,6 +143,18 @@ CHECKS = {
        "ASan+UBSan with the heap stream buffer.",
   note="Nothing is asserted between n/2 and 2n events of look-back. Tie stability rests on glibc's qsort being a "
        "merge sort."),
+ "C18": dict(
+  cat="exploration", ref="DESIGN.md section 3, C18",
+  technique="runtime monitoring: exhaustive one-event probes of every printable event code per model through the real emulator, set comparison with the ovnievents listing, independent re-implementation of the ovnidump description substitution",
+  text="The listing printed by the build's own ovnievents is compared with the frozen documented table (set and "
+       "signatures); every listed event is run once in a legal context through the real ovniemu and must be accepted; "
+       "every unlisted code M c v over the 94 printable characters in each of the eight models (70 688 codes in the "
+       "thorough tier, with empty payload and with the payload sizes listed for that category) is run as a one-event "
+       "probe and must be rejected unless it falls in the carve-outs (OB?, OU?, legacy codes accepted with a warning "
+       "naming them); the ovnidump line of every listed event with PRNG argument values must equal an independent "
+       "implementation of the %{name} / %fmt{name} substitution.",
+  note="Quick tier probes every code of the categories that exist plus a sample of the others. Legal contexts come from "
+       "the frozen table spec/events.json."),
 }
 
 NOT_YET = "check not implemented yet in this revision (work in progress, see DESIGN.md section 3)"
